@@ -1,10 +1,10 @@
-(* C01 layer 3 -- the easter mask: for EVERY Easter index, year length and list of offsets the mask
-   built by rebuild() marks index j exactly when j = eyday + offset for a listed offset (unbounded,
-   by the union lemma); at calendar level, for the years where C19 proves easter() right
-   (1583..4099), the days of the year itself (i < yearlen) are marked exactly when the day is
-   Easter of that year plus a listed offset.  The 7-day extension is filled from the OLD year's
-   Easter, which is where the statement fails (F-C01-easter-week): eastermask_extension_refuted. *)
-From Coq Require Import ZArith List Bool Lia.
+(* C01 layer 3 -- the easter mask (after /repo commit c760855): for EVERY pair of Easter indices,
+   year length and list of offsets the mask built by rebuild() marks a day of the year itself exactly
+   when it is this year's Easter plus a listed offset, and one of the 7 extra days exactly when it is
+   NEXT year's Easter plus a listed offset (unbounded, by the union lemma); at calendar level for the
+   years where C19 proves easter() right (1583..4099).  (Before the fix the extra days used the old
+   year's Easter: fixed finding F-C01-easter-week.) *)
+From Coq Require Import ZArith List Bool Lia ZifyBool.
 From V Require Import base.Cal gen.RrTables gen.EasterGen easter.EasterSpec easter.EasterThm
   rr.RRBase rr.RRNorm rr.RRMasks rr.RRSpec rr.RROverlay rr.RRWeekThm.
 Import ListNotations.
@@ -30,33 +30,72 @@ Proof.
   destruct ((i <? 0) || (Z.of_nat len <=? i))%bool eqn:E2; [lia|reflexivity].
 Qed.
 
-Theorem eastermask_fold_correct : forall eyday ylen offs, 0 <= ylen ->
-  exists m, build_eastermask eyday ylen offs = Ok m /\ zlen m = ylen + 7 /\
-    forall j, 0 <= j < ylen + 7 ->
-      nzb (nth (Z.to_nat j) m 0) = existsb (fun off => eyday + off =? j) offs.
+Lemma existsb_all_false {A} (f : A -> bool) l : (forall x, f x = false) -> existsb f l = false.
+Proof. intros H. induction l as [|x t IH]; cbn [existsb]; [reflexivity|]. rewrite H, IH. reflexivity. Qed.
+
+(* one conditional-set loop on the zero mask: marks e + off for the offsets that land in [lo, hi) *)
+Lemma cond_set_fold (e lo hi : Z) (len : nat) offs : 0 <= lo -> hi <= Z.of_nat len ->
+  let ops := fun (mask : list Z) (offset : Z) =>
+     if (lo <=? e + offset) && (e + offset <? hi) then py_set mask (e + offset) 1 else Ok mask in
+  additive (fun m => fold_res ops offs m) /\
+  exists m, fold_res ops offs (zeros len) = Ok m /\ length m = len /\
+    forall j, 0 <= j -> nzb (nth (Z.to_nat j) m 0) =
+                        existsb (fun off => (e + off =? j) && (lo <=? j) && (j <? hi)) offs.
 Proof.
-  intros eyday ylen offs Hy. unfold build_eastermask, py_repeat.
-  set (len := Z.to_nat (ylen + 7)). fold (zeros len).
-  set (ops := fun (mask : list Z) (offset : Z) =>
-     if (0 <=? eyday + offset) && (eyday + offset <? ylen + 7)
-     then py_set mask (eyday + offset) 1 else Ok mask).
-  set (a := fun off => if (0 <=? eyday + off) && (eyday + off <? ylen + 7)
-                       then set_nat (zeros len) (Z.to_nat (eyday + off)) 1 else zeros len).
+  intros Hlo Hhi ops.
+  set (a := fun off => if (lo <=? e + off) && (e + off <? hi)
+                       then set_nat (zeros len) (Z.to_nat (e + off)) 1 else zeros len).
   assert (Hadd : forall x, additive (fun m => ops m x)).
   { intros x. unfold ops. destruct (_ && _); [apply additive_py_set|apply additive_id]. }
+  split; [apply additive_fold; exact Hadd|].
   assert (Hok : forall x, In x offs -> ops (zeros len) x = Ok (a x)).
-  { intros x _. unfold ops, a. destruct ((0 <=? eyday + x) && (eyday + x <? ylen + 7)) eqn:E; [|reflexivity].
-    apply py_set_zeros. unfold len. lia. }
+  { intros x _. unfold ops, a. destruct ((lo <=? e + x) && (e + x <? hi)) eqn:E; [|reflexivity].
+    apply py_set_zeros. lia. }
   destruct (fold_additive_pointwise ops len a Hadd offs Hok) as (m & Em & Lm & Pm).
-  exists m. split; [exact Em|]. split; [unfold zlen; rewrite Lm; unfold len; lia|].
+  exists m. split; [exact Em|]. split; [exact Lm|].
   intros j Hj. rewrite Pm. apply existsb_ext'. intros off. unfold a.
-  destruct ((0 <=? eyday + off) && (eyday + off <? ylen + 7)) eqn:E.
-  - rewrite set_nat_zeros_nth by (unfold len; lia). unfold nzb.
-    destruct (Nat.eqb (Z.to_nat j) (Z.to_nat (eyday + off))) eqn:E2.
-    + apply Nat.eqb_eq in E2. assert (eyday + off = j) by lia. subst j. rewrite Z.eqb_refl. reflexivity.
-    + apply Nat.eqb_neq in E2. destruct (eyday + off =? j) eqn:E3; [|reflexivity].
+  destruct ((lo <=? e + off) && (e + off <? hi)) eqn:E.
+  - rewrite set_nat_zeros_nth by lia. unfold nzb.
+    destruct (Nat.eqb (Z.to_nat j) (Z.to_nat (e + off))) eqn:E2.
+    + apply Nat.eqb_eq in E2. assert (e + off = j) by lia. subst j. rewrite Z.eqb_refl. cbn [negb andb]. symmetry. lia.
+    + apply Nat.eqb_neq in E2. destruct (e + off =? j) eqn:E3; [|reflexivity].
       apply Z.eqb_eq in E3. subst j. contradiction.
-  - rewrite nth_zeros. unfold nzb. cbn. symmetry. apply Z.eqb_neq. lia.
+  - rewrite nth_zeros. unfold nzb. cbn [Z.eqb negb]. symmetry.
+    destruct (e + off =? j) eqn:E3; [|reflexivity]. apply Z.eqb_eq in E3. subst j. cbn [andb]. lia.
+Qed.
+
+Theorem eastermask_fold_correct : forall eyday neyday ylen offs, 0 <= ylen ->
+  exists m, build_eastermask eyday neyday ylen offs = Ok m /\ zlen m = ylen + 7 /\
+    forall j, 0 <= j < ylen + 7 ->
+      nzb (nth (Z.to_nat j) m 0) =
+      if j <? ylen then existsb (fun off => eyday + off =? j) offs
+      else match neyday with
+           | Some e2 => existsb (fun off => e2 + off =? j) offs
+           | None => false
+           end.
+Proof.
+  intros eyday neyday ylen offs Hy. unfold build_eastermask, py_repeat.
+  set (len := Z.to_nat (ylen + 7)). fold (zeros len).
+  destruct (cond_set_fold eyday 0 ylen len offs ltac:(lia) ltac:(unfold len; lia)) as (_ & m1 & E1 & L1 & P1).
+  cbv zeta in E1. rewrite E1. cbn [bind].
+  destruct neyday as [e2|].
+  - destruct (cond_set_fold e2 ylen (ylen + 7) len offs ltac:(lia) ltac:(unfold len; lia)) as (A2 & m2 & E2 & L2 & P2).
+    cbv zeta in A2, E2.
+    rewrite (additive_on_zeros _ m1 A2). rewrite L1. fold (zeros len). rewrite E2. cbn [lift].
+    eexists. split; [reflexivity|]. split; [unfold zlen; rewrite overlay_length; unfold len in *; lia|].
+    intros j Hj. unfold nzb. rewrite nth_overlay by lia. fold (nzb (nth (Z.to_nat j) m1 0)).
+    fold (nzb (nth (Z.to_nat j) m2 0)). rewrite P1, P2 by lia.
+    destruct (j <? ylen) eqn:EJ.
+    + match goal with |- existsb ?f offs || existsb ?g offs = _ =>
+        rewrite (existsb_all_false g offs) by (intros x; lia) end.
+      rewrite orb_false_r. apply existsb_ext'. intros off. lia.
+    + match goal with |- existsb ?f offs || existsb ?g offs = _ =>
+        rewrite (existsb_all_false f offs) by (intros x; lia) end.
+      cbn [orb]. apply existsb_ext'. intros off. lia.
+  - exists m1. split; [reflexivity|]. split; [unfold zlen; rewrite L1; unfold len; lia|].
+    intros j Hj. rewrite P1 by lia. destruct (j <? ylen) eqn:EJ.
+    + apply existsb_ext'. intros off. lia.
+    + apply existsb_all_false. intros x. lia.
 Qed.
 
 (* easter() as the model calls it = the specification's Easter, for the years of C19's theorem *)
@@ -68,33 +107,37 @@ Proof.
   rewrite E. rewrite <- Emd. reflexivity.
 Qed.
 
-(* calendar level: days of the year itself *)
-Theorem eastermask_correct_own_year : forall year offs, 1583 <= year <= 4099 ->
+(* calendar level: the days of the year itself use this year's Easter, the 7 extra days next
+   year's Easter (both years within the range of C19's theorem) *)
+Theorem eastermask_correct_calendar : forall year offs, 1583 <= year -> year + 1 <= 4099 ->
   let yo := ord_of_ymd year 1 1 in
-  exists eo m, easter_ord year = Ok eo /\ build_eastermask (eo - yo) (year_len year) offs = Ok m /\
+  exists eo eo2 m, easter_ord year = Ok eo /\ easter_ord (year + 1) = Ok eo2 /\
+    build_eastermask (eo - yo) (Some (eo2 - yo)) (year_len year) offs = Ok m /\
     forall i, 0 <= i < year_len year + 7 ->
-      nzb (nth (Z.to_nat i) m 0) = existsb (fun x => yo + i =? easter_ord_spec year + x) offs.
+      nzb (nth (Z.to_nat i) m 0) =
+      existsb (fun x => yo + i =? easter_ord_spec (if i <? year_len year then year else year + 1) + x) offs.
 Proof.
-  intros year offs Hy yo. exists (easter_ord_spec year).
+  intros year offs Hy1 Hy2 yo.
+  exists (easter_ord_spec year), (easter_ord_spec (year + 1)).
   assert (Hl : 0 <= year_len year) by (unfold year_len; destruct (is_leap year); lia).
-  destruct (eastermask_fold_correct (easter_ord_spec year - yo) (year_len year) offs Hl) as (m & Em & _ & Pm).
-  exists m. split; [apply easter_ord_is_spec; exact Hy|]. split; [exact Em|].
-  intros i Hi. rewrite (Pm i Hi). apply existsb_ext'. intros x.
-  destruct (easter_ord_spec year - yo + x =? i) eqn:E1; destruct (yo + i =? easter_ord_spec year + x) eqn:E2;
-    try reflexivity; lia.
+  destruct (eastermask_fold_correct (easter_ord_spec year - yo) (Some (easter_ord_spec (year + 1) - yo))
+              (year_len year) offs Hl) as (m & Em & _ & Pm).
+  exists m. split; [apply easter_ord_is_spec; lia|]. split; [apply easter_ord_is_spec; lia|]. split; [exact Em|].
+  intros i Hi. rewrite (Pm i Hi). destruct (i <? year_len year); apply existsb_ext'; intros x.
+  - destruct (easter_ord_spec year - yo + x =? i) eqn:E1; destruct (yo + i =? easter_ord_spec year + x) eqn:E2;
+      try reflexivity; lia.
+  - destruct (easter_ord_spec (year + 1) - yo + x =? i) eqn:E1;
+      destruct (yo + i =? easter_ord_spec (year + 1) + x) eqn:E2; try reflexivity; lia.
 Qed.
 
-(* ... which for the extension (indices >= yearlen, days of the NEXT year) is the OLD year's
-   Easter: 1 January 2017 (index 366 of 2016) is marked for offset 280 although
-   Easter 2017 + 280 is 21 January 2018 *)
-Theorem eastermask_extension_refuted : exists year offs i eo m,
-  easter_ord year = Ok eo /\ year_len year <= i < year_len year + 7 /\
-  build_eastermask (eo - ord_of_ymd year 1 1) (year_len year) offs = Ok m /\
-  nzb (nth (Z.to_nat i) m 0) = true /\
-  existsb (fun x => ord_of_ymd year 1 1 + i =? easter_ord_spec (year + 1) + x) offs = false.
-Proof.
-  exists 2016, [280], 366, (ord_of_ymd 2016 3 27).
-  exists (match build_eastermask (ord_of_ymd 2016 3 27 - ord_of_ymd 2016 1 1) 366 [280] with
-          | Ok m => m | Err _ => [] end).
-  vm_compute. repeat split; try reflexivity; discriminate.
-Qed.
+(* regression of the fixed finding F-C01-easter-week: 1 January 2017 (index 366 of 2016) is no longer
+   marked for offset 280 (= Easter 2016 + 280) but is marked for -105 (= Easter 2017 - 105) *)
+Example eastermask_extension_fixed :
+  match build_eastermask (ord_of_ymd 2016 3 27 - ord_of_ymd 2016 1 1)
+                         (Some (ord_of_ymd 2017 4 16 - ord_of_ymd 2016 1 1)) 366 [280; -105] with
+  | Ok m => nth 366 m 0 = 1 /\ build_eastermask (ord_of_ymd 2016 3 27 - ord_of_ymd 2016 1 1)
+                                  (Some (ord_of_ymd 2017 4 16 - ord_of_ymd 2016 1 1)) 366 [280] =
+                               Ok (repeat 0 373)
+  | Err _ => False
+  end.
+Proof. vm_compute. split; reflexivity. Qed.
